@@ -22,6 +22,7 @@ RULE = ("constructor cases = 6 classes x required arguments positional/by keywor
         "version cases = major 0..3 x minor 0..12 x patch absent/0..3 (exhaustive) + spellings like 2, 2.00, 02.0, "
         "4-section, huge sections, non-numeric strings, floats, ints, bools, None (+ random dotted strings); "
         "non-trivial = distinct value whose str() is not the literal default '1.4'")
+RULE += ' The effect probe also builds the gateway with persistence_file as a pathlib.Path: it loads and saves like the string.'
 ASSUMPTIONS = [
     "awesomeversion 24.6.0 compares two strings of the form [0-9]+(.[0-9]+)* as modelled from its source "
     "(identical strings neither < nor >, otherwise compare_base_sections with missing sections = 0) and never "
